@@ -4,35 +4,35 @@ R_REAL = "rig R: real replicateChannelManager/handler, tsManager, Barrier, Chann
 
 PROPS = {
     "C01": dict(
-        rig="R", runs=dict(quick=400, thorough=24000),
+        rig="R", runs=dict(quick=2000, thorough=60000),
         nontrivial_probes=["equal_ts_group", "begin_ts_zero_pack", "tick_only_source_pack", "late_partition_message", "forwarded_pack"],
         must_hit=["equal_ts_group", "begin_ts_zero_pack", "tick_only_source_pack", "late_partition_message", "filtered_both_sides_dropped"],
         rule="Seeded generator draws catalog (1-3 collections x 1-2 shards over 1-3 shared pchannels, partitions pre-existing/late/dropped), per-pchannel logs (insert/delete/equal-ts pairs/create*/drop*/unsupported/ticks/double ticks) and scheduler tape; every seam call, delivery, queue receive, operator call and clock advance is one scheduled action.",
         assumptions=[R_REAL, "SimMQ models MqTtMsgStream+msgdispatcher pack construction (BeginTs=0 on first pack, shared positions, DDL fan-out by collection id)", "completeness is judged after a fault-free drain of at least 60 simulated seconds of idleness"],
     ),
     "C02": dict(
-        rig="R", runs=dict(quick=400, thorough=24000),
+        rig="R", runs=dict(quick=2000, thorough=60000),
         nontrivial_probes=["forwarded_pack", "late_partition_message", "queue_shared_by_collections"],
         must_hit=["forwarded_pack", "late_partition_message"],
         rule="Same generator as C01 with free downstream placement in half of the runs (downstream shards on differently named / differently shared pchannels, forward path) and late-published partition ids.",
         assumptions=[R_REAL, "placements are deliverable (equal channel counts)"],
     ),
     "C03": dict(
-        rig="R", runs=dict(quick=400, thorough=24000),
+        rig="R", runs=dict(quick=2000, thorough=60000),
         nontrivial_probes=["queue_shared_by_collections"],
         must_hit=["queue_shared_by_collections"],
         rule="2-3 collections multiplexed on one downstream pchannel, yield hooks between collect/compute/enqueue enabled in 80% of runs, clock advances interleaved so that tick-only packs are emitted or suppressed.",
         assumptions=[R_REAL, "restart/resume part of the property is exercised by the server rig checks, not here"],
     ),
     "C04": dict(
-        rig="R", runs=dict(quick=400, thorough=24000),
+        rig="R", runs=dict(quick=2000, thorough=60000),
         nontrivial_probes=["multi_shard_barrier_fired", "drop_event_ts_checked", "stop_issued"],
         must_hit=["multi_shard_barrier_fired", "stop_issued"],
         rule="Collections with 1-3 shards, drop-partition/drop-collection at the source with scheduler-chosen shard order, AddPartition racing stream registration, stops.",
         assumptions=[R_REAL],
     ),
     "C20": dict(
-        rig="R", runs=dict(quick=400, thorough=24000),
+        rig="R", runs=dict(quick=2000, thorough=60000),
         nontrivial_probes=["drop_event_ts_checked"],
         must_hit=["drop_event_ts_checked"],
         rule="Event part of the property on rig R: create/drop collection/partition events and their replication stamp; barrier wake-up ordered by the scheduler.",
